@@ -315,6 +315,15 @@ func newHSPair(cfg hsConfig) *hsPair {
 			p.I.static = &impostorKey{claimed: p.I.static.PubKey(), actual: ecdhKey(cfg.Seed, "impostor")}
 		case "responder":
 			p.R.static = &impostorKey{claimed: p.R.static.PubKey(), actual: ecdhKey(cfg.Seed, "impostor")}
+		// a party whose private-key operation is unavailable (locked wallet,
+		// remote signer down) cannot prove that it holds the paired key
+		case "initiator_fails":
+			p.I.static = &failingKey{SingleKeyECDH: p.I.static}
+		case "responder_fails":
+			p.R.static = &failingKey{SingleKeyECDH: p.R.static}
+		case "both_fail":
+			p.I.static = &failingKey{SingleKeyECDH: p.I.static}
+			p.R.static = &failingKey{SingleKeyECDH: p.R.static}
 		}
 		if !cfg.IKnowsR {
 			iRemote = keyFromSeed(cfg.Seed, "wrong-r").PubKey()
